@@ -538,9 +538,15 @@ def sc_rebase_later_file(cx):
     r.git("checkout", "-q", "main")
     cx.write_lines(r, "b.txt", cx.lines("main-top", 1 + cx.index) + cx.read_lines(r, "b.txt"))
     cx.commit(r, "m1")
-    r.git("checkout", "-q", "feature")
-    cx.git(r, "rebase", "main")
-    rc, out, _ = r.plain_git("log", "--reverse", "--format=%H", "main..HEAD")
+    if cx.index % 2 == 0:
+        r.git("checkout", "-q", "feature")
+        cx.git(r, "rebase", "main")
+        rc, out, _ = r.plain_git("log", "--reverse", "--format=%H", "main..HEAD")
+    else:
+        cx.tags.append("later-file:cherry-pick")
+        rc, out, _ = r.plain_git("log", "--reverse", "--format=%H", "main..feature")
+        cx.git(r, "cherry-pick", *out.split())
+        rc, out, _ = r.plain_git("log", "--reverse", "--format=%H", "HEAD~3..HEAD")
     new = out.split()
     if len(new) == 3:
         n1 = r.note(new[0])
@@ -700,7 +706,7 @@ def run(tier, seed):
         res.broken_tie("git-ai build", out[-3000:])
         return res.finish()
     corpus = os.path.join(C.VERIF, "corpus", "C05", "cases.jsonl")
-    n1, n2 = (3000, 250) if tier == "quick" else (120000, 6000)
+    n1, n2 = (3000, 250) if tier == "quick" else (120000, 4000)
     bad1, _ = C.phase_suite(res, "c05", seed, n1, corpus)
     bad2, _ = C.phase_suite(res, "c05repo", seed, n2, corpus)
     bad3 = phase_e2e(res, tier, seed)
